@@ -1,11 +1,16 @@
 #!/usr/bin/env python3
-"""drop findings that were fixed in /repo (a union merge re-adds them)"""
-import json
-k = json.load(open('/verif/known_findings.json'))
-gone = {('C13', 'U1:uncompress-of-all-default-nest'), ('C13', 'Y2:fromYAMLfile-drops-tensor-name'),
-        ('C20', 'decode:B-rank-drops-imposed-shape'), ('C11', 'iop:ishl:elem<-nonelem:ret-none:spec'),
-        ('C11', 'iop:ishl:elem<-elem:ret-none:spec'), ('C10', 'F.unflattenRanks:alias:payloads'), ('C14', 'swizzle:formats-mutable-dropped'), ('C14', 'swap:shape-dropped'), ('C14', 'swap:empty-branch:stale-shape'), ('C14', 'unflatten:default-dropped'), ('C09', 'unflatten:default-dropped'), ('C17', 'buffet:stale-shape'), ('C17', 'cache:stale-shape'), ('C08', 'nonuniform:min-of-empty-inds'), ('C09', 'unflatten:depth>0:empty-fiber:IndexError'), ('C14', 'unflatten:estimated-empty:TypeError'), ('C09', 'unflatten:empty-rank:undeclared-shape:TypeError'), ('C14', 'swap:empty-branch:unswapped-tree-outside-shape'), ('C14', 'split:relative:lower-outside-active'), ('C14', 'updateCoords:estimated-shape-stale')}
+"""drop findings that were fixed in /repo (a union merge re-adds them); the repaired signatures are listed in
+tools/gone.json.  `prune_kf.py --absorb FILE` first adds every ('Cxx', 'signature') pair found in FILE (an old
+version of this script from a builder's branch) to gone.json."""
+import json, os, re, sys
+V = os.path.dirname(os.path.dirname(os.path.abspath(__file__)))
+gp = os.path.join(V, "tools", "gone.json")
+gone = {tuple(x) for x in json.load(open(gp))}
+if len(sys.argv) > 2 and sys.argv[1] == "--absorb":
+    gone |= set(re.findall(r"\('(C\d\d)', '([^']+)'\)", open(sys.argv[2]).read()))
+    json.dump(sorted(list(x) for x in gone), open(gp, "w"), indent=0)
+k = json.load(open(os.path.join(V, "known_findings.json")))
 k['findings'] = [f for f in k['findings'] if (f['property'], f['signature']) not in gone
                  and 'updatePayloads' not in f['signature'] and not f['signature'].startswith('U1t')]
-json.dump(k, open('/verif/known_findings.json', 'w'), indent=1)
+json.dump(k, open(os.path.join(V, "known_findings.json"), 'w'), indent=1)
 print(len(k['findings']), 'findings', len(k['fixed']), 'fixed')
